@@ -148,6 +148,7 @@ static void teardown(void *vs) { st_t *s = vs; SPIF_VECTOR_DEL(s->v); free(s); }
 int main(int argc, char **argv)
 {
     mc_init("C04", argc, argv);
+    libast_debug_level = (unsigned) mc_dlevel();        /* --dlevel=N: the whole run at runtime debug level N (default 0) */
     NV = (int) mc_arg_int("values", mc_thorough() ? 4 : 3);
     MULT = (int) mc_arg_int("mult", mc_thorough() ? 3 : 2);
     S = (int) mc_arg_int("S", mc_thorough() ? 7 : 4);
